@@ -25,7 +25,7 @@
     (C14_cancel_reaches_done); that the Go scheduler IS fair is not. *)
 From Coq Require Import Arith Bool List String Ascii ZArith.
 From CanVerif Require Import Runner.Lts Runner.RunModel Runner.LockDiscipline Runner.Protocol Runner.RunLts Runner.RunProofs.
-From CanVerif Require Import Dbc.Ast Runner.Program Runner.ProgramProofs Runner.ProgramLts Runner.ProgramLtsProofs Runner.ProgramLoop Runner.ProgramLoopProofs.
+From CanVerif Require Import Dbc.Ast Runner.Program Runner.ProgramProofs Runner.ProgramLts Runner.ProgramLtsProofs Runner.ProgramLoop Runner.ProgramLoopProofs Runner.ProgramRun Runner.ProgramRunProofs.
 Import ListNotations.
 
 (** I4 exactly-once: accepted + ticks_taken - transmitted - aborted is 1 inside transmit, else 0 *)
@@ -549,3 +549,33 @@ Theorem C14_transmitter_program_execution_reachable : forall cfg dc dt t c s tr 
   reachable cfg s -> texec dc dt t c s tr c2 s2 -> th s t = TTx x -> sim dc dt c x -> reachable cfg s2.
 Proof. exact transmitter_execution_reachable. Qed.
 Print Assumptions C14_transmitter_program_execution_reachable.
+
+(** Run's own action program against the Run-level LTS (Runner/ProgramRun.v): [run_next q c o] = the step of p_Run from
+    configuration c = (pc, ok, inside Connect?, g.Go(go3) calls so far); [rabs] maps pcs to QStart .. QReturned; [rsim]
+    additionally records, after g.Wait() returned, that the group is empty and err = nil iff no worker failed;
+    [renabled]: g.Wait() (node 9) is passed only when every goroutine of the group has returned.  Silent steps keep [rsim],
+    visible steps (QConnectCall, QConnectRet, QSpawn (1 + transmitters) when the range loop is left, QReturn) are [qstep]
+    transitions into [rsim].  The goroutine bodies show QClose / QWorkerRet.  Granularity difference (not a behavioural
+    disagreement): the LTS starts the group by one QSpawn, the program by separate g.Go nodes 4, 5, 8. *)
+Theorem C14_run_program_refines_lts : forall q c o e c',
+  run_next q c o = Some (e, c') -> rsim c q -> renabled c q ->
+  match e with
+  | None => rsim c' q
+  | Some ev => exists q', qstep q ev = Some q' /\ rsim c' q'
+  end.
+Proof. exact run_program_refines. Qed.
+Print Assumptions C14_run_program_refines_lts.
+
+Theorem C14_run_goroutine_bodies :
+  go1_next 0 = Some (None, 1) /\ go1_next 1 = Some (Some QClose, 2) /\
+  (forall o, worker_next p_Run_go2 0 o = Some (None, 1) /\ worker_next p_Run_go2 1 o = Some (Some (QWorkerRet o), 2)) /\
+  (forall o, worker_next p_Run_go3 0 o = Some (None, 1) /\ worker_next p_Run_go3 1 o = Some (Some (QWorkerRet o), 2)).
+Proof. exact goroutine_bodies. Qed.
+Print Assumptions C14_run_goroutine_bodies.
+
+Example C14_run_program_nonvacuous :
+  rsim (mkR 0 true 0 0) qinit /\
+  run_next qinit (mkR 0 true 0 0) true = Some (Some QConnectCall, mkR 0 true 1 0) /\
+  run_next qinit (mkR 6 true 0 2) false = Some (Some (QSpawn 3), mkR 9 true 0 2) /\
+  run_next qinit (mkR 13 false 0 2) true = Some (Some (QReturn false), mkR 15 false 0 2).
+Proof. vm_compute. repeat split; reflexivity. Qed.
